@@ -23,6 +23,8 @@ static_assert(std::is_same_v<std::tuple_element<0, T1>::type, int> && std::is_sa
 static_assert(std::is_same_v<decltype(frg::tuple_cat(std::declval<frg::tuple<int, char>>(), std::declval<frg::tuple<long>>(), std::declval<frg::tuple<>>())), frg::tuple<int, char, long>>, "tuple: tuple_cat result lists the element types in argument order");
 static_assert(std::is_same_v<decltype(frg::make_tuple(1, 'c')), frg::tuple<int, char>>, "tuple: make_tuple decays references");
 static_assert(std::is_same_v<decltype(frg::apply(std::declval<long (*)(int, char)>(), std::declval<frg::tuple<int, char>>())), long>, "tuple: apply returns the functor's result type");
+static_assert(std::is_same_v<decltype(frg::apply(std::declval<int &(*)(int, char)>(), std::declval<frg::tuple<int, char>>())), int &>, "tuple: apply returns a reference when the functor returns one (reference identity of the result)");
+static_assert(std::is_same_v<decltype(frg::apply(std::declval<int &(*)(const int &, const char &)>(), std::declval<const frg::tuple<int, char> &>())), int &>, "tuple: apply on a const lvalue tuple returns a reference when the functor returns one");
 
 // ---- guards (C12)
 static_assert(!std::is_copy_constructible_v<frg::unique_lock<wit::Mutex>>, "guards: unique_lock is not copy-constructible");
